@@ -14,7 +14,7 @@ import (
 
 func init() { evals["C01"] = evalC01 }
 
-var c01Sched = []string{"pushonly", "attach", "detach", "reattach", "round"}
+var c01Sched = []string{"pushonly", "attach", "detach", "reattach", "round", "losesync"}
 
 func evalC01(p prog.Program) Outcome {
 	res := prog.Run(p, prog.RunOpts{ProjTag: "c01", Guard: guardFor("C01", p), Reverse: p.Cfg.Flags["reverse"] == 1})
@@ -58,8 +58,20 @@ func genC01() *rapid.Generator[prog.Program] {
 		MinClients: 2, MaxClients: pick(4, 5), MaxSteps: pick(30, 60),
 		Kinds: prog.AllEditKinds, SchedOps: c01Sched, SyncWeight: 8, OfflineBias: true,
 	})
+	// a fifth of the cases run in a project with a small snapshot
+	// interval/threshold: late joiners and lagging clients are then served
+	// server-built snapshots (copies) instead of the change history
+	snap := prog.Gen(prog.GenOpts{
+		MinClients: 2, MaxClients: pick(4, 5), MaxSteps: pick(30, 60),
+		Kinds: prog.AllEditKinds, SchedOps: c01Sched, SyncWeight: 8, OfflineBias: true, Snapshots: true,
+	})
 	return rapid.Custom(func(t *rapid.T) prog.Program {
-		p := base.Draw(t, "p")
+		var p prog.Program
+		if rapid.IntRange(0, 4).Draw(t, "snap") == 0 {
+			p = snap.Draw(t, "p")
+		} else {
+			p = base.Draw(t, "p")
+		}
 		p.Cfg.Flags = map[string]int{
 			"reverse": rapid.IntRange(0, 1).Draw(t, "reverse"),
 			"twin":    boolInt(rapid.IntRange(0, 3).Draw(t, "twin") == 0),
